@@ -382,6 +382,24 @@ func (n *c11Node) evalHas(cu *c11Cursor, id int, viol *string) string {
 	return "error"
 }
 
+// evalStore: only a single writable member sits under a SwapWriteStore (as the chunk server builds it).
+func (n *c11Node) evalStore(cu *c11Cursor, id int, viol *string) string {
+	if n.kind != "leaf" {
+		return "error"
+	}
+	c := cu.next(n.leafSet(), "store", id)
+	if c == nil {
+		return "error"
+	}
+	if !c.okData && *viol == "" {
+		*viol = "the member was handed data that is not the chunk being stored"
+	}
+	if c.outcome == "ok" {
+		return "ok"
+	}
+	return "error"
+}
+
 type c11Op struct {
 	task     string
 	kind     string
@@ -451,8 +469,13 @@ func runC11(c *fw.Case) {
 	}
 	chainA := c11GenChain(c, w, "a", nids)
 	useSwap := c.Chance(1, 2, "swap")
+	// a writable chunk server wraps one writable store into a SwapWriteStore
+	writable := useSwap && c.Chance(1, 3, "writable")
 	var chainB *c11Node
-	if useSwap {
+	if writable {
+		chainA = &c11Node{kind: "leaf", m: c11GenMember(c, w, "a1", nids, false)}
+		chainB = &c11Node{kind: "leaf", m: c11GenMember(c, w, "b1", nids, false)}
+	} else if useSwap {
 		chainB = c11GenChain(c, w, "b", nids)
 	}
 	nclients := c.Range(1, 4, "clients")
@@ -467,11 +490,14 @@ func runC11(c *fw.Case) {
 			if c.Chance(1, 3, "has") {
 				k = "has"
 			}
+			if writable && c.Chance(1, 2, "store") {
+				k = "store"
+			}
 			plans[i] = append(plans[i], planned{k, c.Draw(nids, "id")})
 		}
 	}
 	swapAfter := c.Draw(12, "swap.after")
-	c.Class(fmt.Sprintf("clients=%d swap=%v %s", nclients, useSwap, shape(chainA)))
+	c.Class(fmt.Sprintf("clients=%d swap=%v writable=%v %s", nclients, useSwap, writable, shape(chainA)))
 	c.Note("A=%s", chainA.describe())
 	if useSwap {
 		c.Note("B=%s swap after %d yields", chainB.describe(), swapAfter)
@@ -486,7 +512,12 @@ func runC11(c *fw.Case) {
 		rt.MaxSteps = 20000
 		var top desync.Store = chainA.build()
 		var sw *desync.SwapStore
-		if useSwap {
+		var sww *desync.SwapWriteStore
+		if writable {
+			sww = desync.NewSwapWriteStore(top)
+			sw = &sww.SwapStore
+			top = sww
+		} else if useSwap {
 			sw = desync.NewSwapStore(top)
 			top = sw
 		}
@@ -498,7 +529,14 @@ func runC11(c *fw.Case) {
 					w.seq++
 					op := &c11Op{task: name, kind: p.kind, id: p.id, inv: w.seq}
 					ops = append(ops, op)
-					if p.kind == "get" {
+					if p.kind == "store" {
+						ch, _ := desync.NewChunkWithID(w.ids[p.id], w.data[p.id], false)
+						if err := sww.StoreChunk(ch); err != nil {
+							op.res, op.errStr = "error", err.Error()
+						} else {
+							op.res = "ok"
+						}
+					} else if p.kind == "get" {
 						ch, err := top.GetChunk(w.ids[p.id])
 						switch {
 						case err == nil:
@@ -573,13 +611,16 @@ func runC11(c *fw.Case) {
 			cu := &c11Cursor{calls: calls}
 			viol := ""
 			var want string
-			if op.kind == "get" {
+			switch op.kind {
+			case "get":
 				want = chain.evalGet(cu, op.id, &viol)
 				if want == "invalid" {
 					want = "error"
 				}
-			} else {
+			case "has":
 				want = chain.evalHas(cu, op.id, &viol)
+			default:
+				want = chain.evalStore(cu, op.id, &viol)
 			}
 			if cu.bad != "" {
 				return cu.bad
@@ -594,7 +635,7 @@ func runC11(c *fw.Case) {
 			if want != op.res {
 				return fmt.Sprintf("policy over the observed member outcomes yields %s, the chain returned %s (%s)", want, op.res, op.errStr)
 			}
-			if op.res == "ok" && !op.dataOK {
+			if op.kind == "get" && op.res == "ok" && !op.dataOK {
 				return "the chain returned a chunk whose data is not the requested chunk"
 			}
 			return ""
